@@ -126,8 +126,17 @@ def check_locks(ctx: Ctx):
     ctx.decide("R16.6", None, None, "panoptica_aggregator:start-method", "the start method is set to fork on posix so module-level locks are inherited by workers", ok_fork, None, nontrivial=False)
 
 
+def _run_rule(ctx, name, fn):
+    """a sub-rule that cannot be evaluated is recorded as undecided; the remaining rules still run"""
+    try:
+        return fn(ctx)
+    except (Undecided, AnchorMissing) as e:
+        ctx.undecided(name, None, None, f"{name}:analysis", f"{type(e).__name__}: {e}")
+        return 0
+
+
 def check(ctx: Ctx):
-    check_locks(ctx)
+    _run_rule(ctx, "check_locks", check_locks)
     # "rows carry the values a sequential run would produce": the objects shared by the threads of
     # one aggregator (evaluator, approximator, matcher) keep no per-call state (R15.6, R05.5, R15.7)
     from . import c03, c05, c15
